@@ -5,6 +5,7 @@ import TongoGen.TlLength
 import TongoProofs.Lemmas.GenTiesB
 import TongoProofs.Lemmas.TlBindings
 import TongoGen.TlBindingsAll
+import TongoProofs.Lemmas.TlWait
 /-! Property C10 — the lite-server bindings speak exactly the wire format of `lite_api.tl`.
 
 `Gen.liteApi` is the schema of the CURRENT `liteclient/lite_api.tl` (translator X3, regenerated on every run, tied to
@@ -204,7 +205,7 @@ theorem liteapi_functions_covered :
 /- `steps_eq_schema` and `method_steps_eq_schema` (generic in the schema and in the extracted bindings) are stated in
 TongoProofs/C09.lean; here they are instantiated at the regenerated schema and the regenerated bindings. -/
 
-/-- regenerated obligation (75 kernel-decided obligations, one per type and per function of lite_api.tl): the bindings
+/-- regenerated obligation (72 kernel-decided obligations: 43 types + 29 functions of lite_api.tl): the bindings
 extracted from the current generated.go match the schema of the current lite_api.tl -/
 theorem liteapi_bindings_agree : Bind.agreeAll liteApi tlBindings = true := bindings_agree
 
@@ -256,6 +257,49 @@ theorem liteapi_decoder_table (f : String) (d : Decl) (hf : liteApi.func? f = so
     Bind.decoderTable tlBindings fuel (bs ++ rest)
       = .ok (d.id, some (f, .tuple (Bind.repFields liteApi d.fields ps))) :=
   Bind.decoder_table_eq wf_liteapi bindings_agree f d hf ps bs rest fuel henc hfuel
+
+/-! ### Hand-written request builders of liteclient/client.go (extracted by X7: `Gen.waitConsts`) -/
+
+/-- `liteServer.lookupBlock` and `tonNode.blockId` as spelled in lite_api.tl -/
+def lookupBlockDecl : Decl :=
+  { ctor := "liteServer.lookupBlock", id := 0xfac8f71e, result := "liteServer.BlockHeader",
+    fields := [{ name := "mode", cond := none, ty := .nat }, { name := "id", cond := none, ty := .bare "tonNode.blockId" },
+               { name := "lt", cond := some ("mode", 1), ty := .long }, { name := "utime", cond := some ("mode", 2), ty := .int }] }
+
+def blockIdDecl : Decl :=
+  { ctor := "tonNode.blockId", id := 0xb7cdb167, result := "tonNode.BlockId",
+    fields := [{ name := "workchain", cond := none, ty := .int }, { name := "shard", cond := none, ty := .long },
+               { name := "seqno", cond := none, ty := .int }] }
+
+theorem liteapi_lookup_decls : liteApi.func? "liteServer.lookupBlock" = some lookupBlockDecl ∧
+    liteApi.ctor? "tonNode.blockId" = some blockIdDecl := by decide +kernel
+
+/-- regenerated obligation: the literals of the hand-written `WaitMasterchainSeqno` / `WaitMasterchainBlock` of
+liteclient/client.go (prefix id, wrapper id, both error tags, result tag, request and result types, the request struct
+literal) are those of the schema -/
+theorem liteapi_wait_agree : Bind.waitAgree liteApi waitConsts = true := by
+  rw [liteapi_literal]; exact wait_consts_agree
+
+set_option maxRecDepth 100000 in
+/-- the prefix id spelled in client.go (and in the comment of lite_api.tl) is the CRC-32 of its declaration -/
+theorem wait_prefix_id_is_crc32 : crcOf waitSeqnoDecl = waitSeqnoDecl.id := by decide +kernel
+
+/-- **WaitMasterchainSeqno**: the request built by the Go code is the boxed schema encoding of
+`liteServer.waitMasterchainSeqno(seqno, timeout)` -/
+theorem liteapi_wait_seqno (seqno timeout : Nat) (hs : seqno < 2 ^ 32) (ht : timeout < 2 ^ 32) :
+    waitSeqnoRequest seqno timeout = some (Bind.waitSeqnoGo waitConsts seqno timeout) :=
+  Bind.wait_seqno_eq liteApi waitConsts liteapi_wait_agree seqno timeout hs ht
+
+/-- **WaitMasterchainBlock**: prefix, wrapper id and `MarshalTL` of the request struct literal (through the extracted
+bindings of `LiteServerLookupBlockRequest`) are the prefix followed by the schema encoding of the call
+`liteServer.lookupBlock(mode = 1, id = (-1, 0x8000000000000000, seqno))` -/
+theorem liteapi_wait_block (seqno timeout fuel : Nat) (bs : Bytes) (hs : seqno < 2 ^ 32) (ht : timeout < 2 ^ 32)
+    (henc : waitBlockRequest liteApi seqno timeout = some bs) (hfuel : 11 ≤ fuel) :
+    Bind.waitBlockGo tlBindings waitConsts fuel seqno timeout = some bs := by
+  have hrep : Bind.repFields liteApi lookupBlockDecl.fields (waitBlockParams seqno) = waitBlockParams seqno := by
+    simp [Bind.repFields, Bind.rep, lookupBlockDecl, waitBlockParams, liteapi_lookup_decls.2, blockIdDecl]
+  exact Bind.wait_block_eq bindings_agree waitConsts liteapi_wait_agree lookupBlockDecl liteapi_lookup_decls.1 seqno
+    timeout fuel bs hs ht hrep henc (by simp [waitBlockParams, depthList, Val.depth]; omega)
 
 /-! ### The regenerated schema value and its constructor ids
 
